@@ -829,6 +829,8 @@ def run(ctx):
   lookup = {id(t): d for t, d in zip(trs, descr)}
   bad = ctx.compare('EvoRun.run vs pyglove.ext.evolution (recorded PRNG)', trs, impl, outs, describe=lambda t: lookup.get(id(t)))
   ctx.exhaustive = False
+  ctx.extra['crossover_sweep'] = dict(exhaustive=True, max_values=ctx.scale(4, 5), evaluations=crossover_sweep(ctx, ctx.scale(4, 5)),
+                                      what='every pair of parent permutations x every pair of cutting points (PMX, Order) / every coin-flip sequence (Cycle): proposals are permutations')
   ctx.extra['systematic_sweep'] = dict(mode_specs=len(mode_specs()), selectors=len(sels), mutators=len(muts), pointwise=len(recs), two_parent=len(recs2))
   # violation search on the disagreeing cases first (the oracle has already run on every case)
   if ctx.is_broken() and not ctx.hits:
@@ -836,6 +838,42 @@ def run(ctx):
       d = descr[i]
       for sig, what in oracle(d['spec'], d['expr'], d['pop'], d['seed'], determinism=True):
         ctx.hit(sig, what, d)
+
+def crossover_sweep(ctx, nmax):
+  """Exhaustive, on the implementation: for all pairs of permutations of up to nmax values, all cutting points / coin flips,
+  the proposals of PMX, Order and Cycle are permutations of the parents' values."""
+  import itertools
+  pg, base, M, R, S, W = lib()
+  pmx, ox, cx = R.PartiallyMapped(), R.Order(), R.Cycle()
+  class Bits:
+    def __init__(self, bits): self.bits = list(bits)
+    def choice(self, seq): return seq[self.bits.pop(0) if self.bits else 0]
+  n_eval = 0
+  for n in range(2, nmax + 1):
+    perms = [list(p) for p in itertools.permutations(range(n))]
+    ident = list(range(n))
+    for pa in perms:
+      for pb in perms:
+        outs = []
+        for st in range(n):
+          for en in range(st + 1, n):
+            outs.append(('PartiallyMapped', (st, en), lambda: pmx.partially_mapped_crossover([list(pa), list(pb)], st, en)))
+            outs.append(('Order', (st, en), lambda: ox.order_crossover([list(pa), list(pb)], st, en)))
+        for bits in itertools.product((0, 1), repeat=n):
+          def cyc(bits=bits):
+            cx._random = Bits(bits); return cx.cycle_crossover([list(pa), list(pb)])
+          outs.append(('Cycle', bits, cyc))
+        for name, par, fn in outs:
+          n_eval += 1
+          try:
+            kids = fn(); ok = len(kids) == 2 and all(sorted(k) == ident for k in kids); why = repr(kids)
+          except Exception as e:   # pylint: disable=broad-except
+            ok = False; why = '%s: %s' % (type(e).__name__, e)
+          if not ok:
+            ctx.hit('C14/permutation-proposal/recombinators.%s/not-a-permutation' % name,
+                    '%s on parents %r, %r with %r proposes %s' % (name, pa, pb, par, why), dict(kind='crossover-sweep', op=name, pa=pa, pb=pb, par=list(par)))
+            return n_eval
+  return n_eval
 
 def process_case(c):
   """One case in a worker process: run the implementation with the recorder, evaluate the oracle.  Never raises:
@@ -866,6 +904,19 @@ def run_jobs(fn, jobs, nproc):
 
 def replay(ctx, rp):
   c = rp['case']
+  if c.get('kind') == 'crossover-sweep':
+    pg, base, M, R, S, W = lib()
+    try:
+      if c['op'] == 'Cycle':
+        class Bits:
+          def __init__(self, bits): self.bits = list(bits)
+          def choice(self, seq): return seq[self.bits.pop(0) if self.bits else 0]
+        op = R.Cycle(); op._random = Bits(c['par']); kids = op.cycle_crossover([c['pa'], c['pb']])
+      elif c['op'] == 'Order': kids = R.Order().order_crossover([c['pa'], c['pb']], *c['par'])
+      else: kids = R.PartiallyMapped().partially_mapped_crossover([c['pa'], c['pb']], *c['par'])
+      return all(sorted(k) == sorted(c['pa']) for k in kids)
+    except Exception:   # pylint: disable=broad-except
+      return False
   hits = oracle(c['spec'], c['expr'], c['pop'], c['seed'])
   for h in hits:
     print('  still fails:', h)
